@@ -9,7 +9,7 @@ def plan(tier, seed):
     asc = [H("c15::w_special_custom_f32", "every byte written for custom NaN/inf strings accepted by is_valid() is 7-bit ASCII", "symbolic strings of length 1..4"),
            H("c15::w_special_custom_f64", "", "symbolic strings of length 1..4")]
     return {
-        "kani": [KGroup("S", hs, timeout=1500, jobs=9, mem_gb=10, label="std"), KGroup("D", asc, timeout=900, jobs=2, mem_gb=8, label="ASCII of special strings")],
+        "kani": [KGroup("S", hs, timeout=1500, jobs=9, mem_gb=14, label="std"), KGroup("D", asc, timeout=900, jobs=2, mem_gb=14, label="ASCII of special strings")],
         "functions_encoded": ["lexical::{to_string,parse,parse_partial}", "lexical_core::{write,parse,parse_partial}"],
         "bounds": ["integers: all values of 8/16-bit types; parse: arbitrary bytes len<=3; floats: special values and zeros only"],
         "outside_claim": ["to_string_with_options / buffer_size sufficiency for floats (needs the float formatting layer: see C09/C14)", "wider integer types (the facade is type-generic code; not re-run)"],
